@@ -422,7 +422,33 @@ func c06Arith(w *core.Worker, a, b poolVal, r c06Res, viol func(sig, what string
 	}
 }
 
+// c06EmptyOperand: IN / ANY / ALL over a sub-query that returns no row are decided by the documented expansions
+// (empty OR = FALSE, empty AND = TRUE) whatever the left operand is, NULL included.
+func c06EmptyOperand(w *core.Worker, s *core.Sess) {
+	core.WriteFiles(w.Work, map[string]string{"empty06.csv": "x\n"})
+	n := 0
+	for _, a := range c06Pool {
+		q := fmt.Sprintf("SELECT (%s) IN (SELECT x FROM empty06), (%s) NOT IN (SELECT x FROM empty06), (%s) = ANY (SELECT x FROM empty06), (%s) < ANY (SELECT x FROM empty06), (%s) = ALL (SELECT x FROM empty06), (%s) >= ALL (SELECT x FROM empty06), (%s) <> ALL (SELECT x FROM empty06)", a.SQL, a.SQL, a.SQL, a.SQL, a.SQL, a.SQL, a.SQL)
+		r := s.Exec(q)
+		if r.Err != nil || len(r.Views) != 1 {
+			w.Violation("eval-error", fmt.Sprintf("%s -> %v", q, r.Err), c06Replay{Expr: q, A: a.SQL})
+			continue
+		}
+		want := []int8{-1, 1, -1, -1, 1, 1, 1}
+		names := []string{"IN", "NOT IN", "= ANY", "< ANY", "= ALL", ">= ALL", "<> ALL"}
+		for k := range want {
+			g, ok := ternCell(r.Views[0].Rows[0][k])
+			if !ok || g != want[k] {
+				w.Violation("expansion:empty:"+names[k], fmt.Sprintf("(%s) %s (a sub-query without rows) = %v, the documented expansion over no element gives %s", a.SQL, names[k], r.Views[0].Rows[0][k], map[int8]string{1: "TRUE", -1: "FALSE"}[want[k]]), c06Replay{Expr: q, A: a.SQL, Got: r.Views[0].Rows[0][k].String()})
+			}
+			n++
+		}
+	}
+	w.Count("expansions_over_an_empty_subquery", int64(n))
+}
+
 func c06Kleene(w *core.Worker, s *core.Sess) {
+	c06EmptyOperand(w, s)
 	car := map[int8][]string{
 		1:  {"TRUE", "BOOLEAN(TRUE)", "1", "'t'", "'true'", "1.0", "'1'", "(1 = 1)"},
 		-1: {"FALSE", "BOOLEAN(FALSE)", "0", "'f'", "'false'", "0.0", "'0'", "(1 = 2)"},
